@@ -2,6 +2,8 @@
 
 from __future__ import annotations
 
+from enum import Enum
+
 from vlib import apci_gen as G
 from vlib import apci_masks as M
 from vlib.eqv import same
@@ -29,10 +31,87 @@ LEVEL_NOTE = (
     "the statement; counted per class), how often tolerant code bits were normalised (counted). Encoder state is driven: every returned "
     "bytearray is overwritten by the harness (as CEMILData.to_knx() does with the TPCI bits) and the same and an equal fresh object are encoded "
     "again; a sample (all valid frames x T_Data_Connected seq 1..15, every 29th accepted input x 2 sequence numbers) is encoded inside "
-    "T_Data_Connected / T_Data_Tag_Group / T_Data_Individual frames, then bare, then as T_Data_Group, each compared with the received octets."
+    "T_Data_Connected / T_Data_Tag_Group / T_Data_Individual frames, then bare, then as T_Data_Group, each compared with the received octets. Decoder state: a second decoded object of the same octets is deep-mutated "
+    "(every attribute rebound, nested DPTBinary/DPTArray/address/SCF/SecureData/list/bytearray changed in place) and the octets are "
+    "decoded a third time; the value snapshot must equal the first decode."
 )
 SHARDS = {"quick": 1, "thorough": 16}
 TIMEOUT = {"quick": 240, "thorough": 1500}
+
+
+_SLOT_CACHE = {}
+
+
+def _attrs(obj):
+    cls = type(obj)
+    names = _SLOT_CACHE.get(cls)
+    if names is None:
+        names = []
+        for klass in cls.__mro__:
+            slots = klass.__dict__.get("__slots__", ())
+            names.extend(n for n in ((slots,) if isinstance(slots, str) else slots) if n not in ("__weakref__", "__dict__"))
+        _SLOT_CACHE[cls] = names = tuple(names)
+    return names
+
+
+_ATOMS = (int, str, bytes, float, type(None), Enum)
+
+
+def freeze(obj, depth=0):
+    """Value snapshot of a decoded object that shares nothing with it."""
+    if isinstance(obj, _ATOMS):
+        return obj
+    if isinstance(obj, bytearray):
+        return bytes(obj)
+    if isinstance(obj, (list, tuple)):
+        return tuple(freeze(x, depth + 1) for x in obj)
+    if depth > 6:
+        return repr(obj)
+    return (type(obj).__name__, tuple(freeze(getattr(obj, n, None), depth + 1) for n in _attrs(obj)))
+
+
+def scribble(obj, depth=0):
+    """Deep-mutate a decoded object: rebind every attribute, change every nested mutable object in place.
+
+    A consumer owns what the decoder returned; whatever it does to it must not be visible in a later decode.
+    """
+    for name in _attrs(obj):
+        try:
+            value = getattr(obj, name)
+        except AttributeError:
+            continue
+        if isinstance(value, bool):
+            new = not value
+        elif isinstance(value, Enum):
+            members = list(type(value))
+            new = members[(members.index(value) + 1) % len(members)]
+        elif isinstance(value, int):
+            new = value ^ 0x15
+        elif isinstance(value, bytes):
+            new = b"\xee" + value[::-1]
+        elif isinstance(value, tuple):
+            new = (0xEE, *value[::-1])
+        elif value is None:
+            new = 0xEE
+        elif isinstance(value, bytearray):
+            value.reverse()
+            value.append(0xEE)
+            continue
+        elif isinstance(value, list):
+            for item in value:
+                if not isinstance(item, _ATOMS) and depth < 4:
+                    scribble(item, depth + 1)
+            value.reverse()
+            value.append(value[0] if value else 0xEE)
+            continue
+        else:
+            if depth < 4:
+                scribble(value, depth + 1)  # nested object (DPTBinary, DPTArray, address, SCF, SecureData): in place
+            continue
+        try:
+            setattr(obj, name, new)
+        except Exception:  # noqa: BLE001 - read-only attribute
+            pass
 
 
 def live_service_classes():
@@ -63,6 +142,7 @@ class Judge:
         self.unknown_classes = set()
         self.restart_flag_bits = 0
         self.repeat_checked = 0
+        self.scribbled = 0
         self.framed = 0
         self.frame_refused = 0
 
@@ -78,6 +158,7 @@ class Judge:
         ctx = self.ctx
         self.n += 1
         cname = type(obj).__name__
+        pristine = freeze(obj)
         self.accepted[cname] = self.accepted.get(cname, 0) + 1
         ln = len(raw)
         wit = {"apdu": raw.hex(), "class": cname, "decoded": str(obj)[:300]}
@@ -96,9 +177,11 @@ class Judge:
         if isinstance(returned, bytearray) and returned:
             returned[0] |= 0xFC
             returned[-1] ^= 0xFF
+        twin_obj = None
         try:
             again = bytes(obj.to_knx())
-            twin = bytes(APCI.from_knx(raw).to_knx())
+            twin_obj = APCI.from_knx(raw)
+            twin = bytes(twin_obj.to_knx())
         except Exception as exc:  # noqa: BLE001
             again = twin = None
             ctx.violation(
@@ -114,6 +197,8 @@ class Judge:
                 f"encodes to {again[:20].hex()} and an equal freshly decoded object to {twin[:20].hex()}",
             )
         self.repeat_checked += 1
+        if twin_obj is not None:
+            self.decode_again_after_scribble(raw, cname, pristine, twin_obj)
         if enc and enc[0] & 0xFC:
             ctx.violation(
                 f"{cname}-encoding-carries-transport-layer-bits", wit,
@@ -184,6 +269,23 @@ class Judge:
         self.fps.add((cname, "roundtrip", min(ln, 24)))
         return True
 
+    def decode_again_after_scribble(self, raw, cname, pristine, victim):
+        """The consumer rewrites everything reachable from a decoded object; the same octets must still decode to the first result."""
+        scribble(victim)
+        self.scribbled += 1
+        try:
+            third = freeze(APCI.from_knx(raw))
+        except Exception as exc:  # noqa: BLE001
+            third = ("raised", repr(exc)[:120])
+        if third != pristine:
+            self.ctx.violation(
+                f"{cname}-decode-depends-on-earlier-decoded-object",
+                {"apdu": raw.hex(), "class": cname, "mode": "decode-twice", "first_decode": repr(pristine)[:300],
+                 "decode_after_consumer_mutated_earlier_result": repr(third)[:300]},
+                f"{cname}: {raw[:20].hex()} decoded to {pristine!r:.120}; after a consumer rewrote the attributes of an earlier decoded "
+                f"object the same octets decode to {third!r:.120}",
+            )
+
     def framed_relay(self, raw, seqs):
         """Encode the decoded APDU inside frames with non-zero TPCI, then bare and as T_Data_Group; all must match `raw`."""
         ctx = self.ctx
@@ -243,6 +345,7 @@ class Judge:
         ctx.ev(self.n)
         ctx.count("second_encoding_after_buffer_mutation_compared", self.repeat_checked)
         ctx.count("framed_encodings_compared", self.framed)
+        ctx.count("decoded_again_after_deep_mutation_of_earlier_result", self.scribbled)
         ctx.count("framed_encoder_refusals", self.frame_refused)
         ctx.count("accepted_and_reencoded", self.n - sum(self.refused.values()))
         ctx.count("encoder_refused_decoded_object", sum(self.refused.values()))
@@ -278,7 +381,7 @@ def run(ctx):
     for name in sorted(set(M.MASKS) - set(live)):
         ctx.inconclusive(f"mask table names a service class the library does not define: {name}")
     ctx.require("accepted_and_reencoded", "differs_only_in_reserved_bits", "second_encoding_after_buffer_mutation_compared",
-                "framed_encodings_compared")
+                "framed_encodings_compared", "decoded_again_after_deep_mutation_of_earlier_result")
     ctx.count("service_classes", len(live) - len(G.STUB_CLASSES))
 
     judge = Judge(ctx)
